@@ -127,6 +127,8 @@ def scalar_pattern(desc, v) -> tuple[int, int]:
         return (1 if v else 0), 1
     if k in ("uint", "int", "byte", "utf8"):
         n = 8 if k in ("byte", "utf8") else desc[1]
+        if isinstance(v, float) and k in ("uint", "int") and v == v and v not in (float("inf"), float("-inf")) and v.is_integer():
+            v = int(v)  # an integral-valued float IS that integer (exactly); non-integral floats are outside the model
         if not isinstance(v, (bool, int)):
             raise BadValue
         v = int(v)
